@@ -109,15 +109,15 @@ def run_check(pid, tier, seed, nworkers=None, verbose=True):
     known = Counter()
     violations = []
     seen = set()
-    kinputs = {} if os.environ.get("VQ_IGNORE_KNOWN_INPUTS") else kf.known_inputs(pid)
+    kinputs = None if os.environ.get("VQ_IGNORE_KNOWN_INPUTS") else kf.known_inputs(pid)
     for fl, case, idx in fails:
         pred = fl.get("pred")
         if pred and pred in openf:
             # on the fixed corpus a listed mechanism is keyed by input: a corpus case that is not among the
             # recorded witnesses of this mechanism (under this hash seed) is a different violation
-            if isinstance(case, dict) and case.get("origin") == "fixed" and pred in kinputs:
+            if isinstance(case, dict) and case.get("origin") == "fixed" and kinputs is not None:
                 wid = f"{_digest(case)}:{fl.get('_hs')}"
-                if wid not in kinputs[pred]:
+                if wid not in kinputs.get(pred, set()):
                     fl = dict(fl, kind=str(fl.get("kind")) + "_new_input_for_listed_mechanism", msg=f"[fixed-corpus case not among the recorded witnesses of {pred}] " + str(fl.get("msg")))
                     violations.append((fl, case, idx))
                     continue
